@@ -230,11 +230,13 @@ class World(object):
         ver = conn.version or R.V311
         for raw in raws:
             try:
-                kind, f = R.ref_decode_strict(raw, R.C2B, ver)
+                kind, f, soft = R.ref_decode(raw, R.C2B, ver)
             except R.Malformed as m:
                 frames.append(("MALFORMED", m.reason, raw))
                 conn.frames.append((e.i, "MALFORMED", m.reason, raw, where))
                 continue
+            if soft:
+                f["_soft"] = list(soft)      # decodable, but not what the specification prescribes (C18/C02 judge it)
             frames.append((kind, f, raw))
             conn.frames.append((e.i, kind, f, raw, where))
             if where == "wire":
@@ -643,7 +645,14 @@ class World(object):
             else:
                 cands = {"PUBACK": conn.b_q1, "PUBREC": conn.b_q2, "PUBCOMP": conn.b_rel,
                          "UNSUBACK": conn.b_unsub}[kind]
-            if kind == "PUBCOMP" and sel == 5:   # PUBCOMP before PUBREC
+            if sel == 6:       # the id of a request of ANOTHER kind that is outstanding right now
+                others = []
+                for kk, lst in (("PUBACK", conn.b_q1), ("PUBREC", conn.b_q2), ("PUBCOMP", conn.b_rel),
+                                ("SUBACK", list(conn.b_sub)), ("UNSUBACK", conn.b_unsub)):
+                    if kk != kind and not (kind in ("PUBACK", "PUBREC", "PUBCOMP") and kk in ("PUBACK", "PUBREC", "PUBCOMP")):
+                        others += list(lst)
+                i = others[x % len(others)] if others else None
+            elif kind == "PUBCOMP" and sel == 5:   # PUBCOMP before PUBREC
                 i = conn.b_q2[x % len(conn.b_q2)] if conn.b_q2 else None
             else:
                 i = self._sel(cands, sel if sel != 5 else 0, x, conn.last_ans.get(kind))
@@ -659,7 +668,7 @@ class World(object):
                     n = y % 9
                     codes = [[0, 1, 2, 0x80][((x * 7 + y) >> (2 * j)) & 3] for j in range(n)]
                 f["codes"] = codes
-            solicited = (sel not in (3, 4, 5)) or (sel == 3 and i in cands)
+            solicited = (sel not in (3, 4, 5, 6)) or (sel == 3 and i in cands)
             if solicited:
                 if kind == "SUBACK":
                     conn.b_sub.pop(i, None)
